@@ -721,9 +721,12 @@ impl Report {
         let dir = format!("{}/evidence", verif_dir());
         let _ = std::fs::create_dir_all(&dir);
         let path = format!("{dir}/{}.json", self.property);
-        if let Err(e) = std::fs::write(&path, serde_json::to_string_pretty(&ev).unwrap()) {
-            eprintln!("cannot write evidence {path}: {e}");
-            return 2;
+        // (a replay re-runs a check to reproduce one finding: it is not a tier and leaves the evidence alone)
+        if self.tier == "quick" || self.tier == "thorough" {
+            if let Err(e) = std::fs::write(&path, serde_json::to_string_pretty(&ev).unwrap()) {
+                eprintln!("cannot write evidence {path}: {e}");
+                return 2;
+            }
         }
         for l in lines {
             println!("{l}");
